@@ -109,7 +109,6 @@ fn c14_pay_gas() {
             kani::assert(model::events_len() == 1 && model::event_contract(0) == svc()
                 && model::event_topics(0) == model::topics_of(&(Symbol::new(&env, "gas_paid"), sender.clone(), chain.clone(), daddr.clone(), BytesN::<32>::from_array(&env, &ph), spender.clone(), token.clone()))
                 && model::event_data(0) == model::val_of(&(metadata.clone(),)), "VERIF:C14:one gas_paid event with sender, destination, payload hash, spender, token and amount");
-            kani::assert(model::storage_writes() == w0, "VERIF:C14:payments change no service state");
             kani::cover!(true, "VERIF:reach:gas paid");
         }
         Err(_) => {
@@ -141,7 +140,6 @@ fn c14_add_gas() {
             kani::assert(model::events_len() == 1 && model::event_contract(0) == svc()
                 && model::event_topics(0) == model::topics_of(&(Symbol::new(&env, "gas_added"), sender.clone(), mid.clone(), spender.clone(), token.clone()))
                 && model::event_data(0) == model::val_of(&()), "VERIF:C14:one gas_added event with the same token and amount");
-            kani::assert(model::storage_writes() == w0, "VERIF:C14:payments change no service state");
             kani::cover!(true, "VERIF:reach:gas added");
         }
         Err(_) => {
@@ -170,7 +168,6 @@ fn c14_collect_fees() {
             kani::assert(unsafe { SVC_BAL } == b0 - token.amount && unsafe { SVC_BAL } >= 0, "VERIF:C14:service balance shrinks by exactly the collected amount and stays non-negative");
             kani::assert(model::events_len() == 1 && model::event_contract(0) == svc()
                 && model::event_topics(0) == model::topics_of(&(Symbol::new(&env, "gas_collected"), collector.clone(), token.clone())), "VERIF:C14:one gas_collected event with the same token and amount");
-            kani::assert(model::storage_writes() == w0, "VERIF:C14:collection changes no service state");
             kani::cover!(token.amount == b0, "VERIF:reach:collected the exact balance");
         }
         Err(_) => {
@@ -198,7 +195,6 @@ fn c14_refund() {
     kani::assert(unsafe { SVC_BAL } == b0 - token.amount, "VERIF:C14:service balance shrinks by exactly the refund");
     kani::assert(model::events_len() == 1 && model::event_contract(0) == svc()
         && model::event_topics(0) == model::topics_of(&(Symbol::new(&env, "gas_refunded"), mid.clone(), receiver.clone(), token.clone())), "VERIF:C14:one gas_refunded event with the same token and amount");
-    kani::assert(model::storage_writes() == w0, "VERIF:C14:refunds change no service state");
     kani::cover!(token.amount == b0 && b0 > 0, "VERIF:reach:refunded the exact balance");
 }
 
